@@ -415,6 +415,9 @@ class Body:
             d = defaultdict(list)
             for i, j, s in self.stmts():
                 if s["k"] == "assign":
+                    # a write through a pointer (`(*p).f = x`) does not define the pointer local
+                    if any(e[0] == "*" for e in s["p"]["pr"]):
+                        continue
                     d[s["p"]["l"]].append((i, j, s))
             for i, t in self.calls():
                 d[t["dest"]["l"]].append((i, "term", t))
